@@ -14,6 +14,7 @@ assumption of that uniformity, stated as such.
 """
 from __future__ import annotations
 
+import ast
 import itertools
 import math
 from typing import List
@@ -21,7 +22,7 @@ from typing import List
 import numpy as np
 
 from ..consteval import Raised, Rec, Undecidable
-from ..index import AnalysisError, Index
+from ..index import AnalysisError, Index, norm
 from ..report import Report
 from ..rules import circuitsem as cs
 from ..rules import numsem
@@ -37,6 +38,10 @@ class _Circ:
         self._gates = list(gates or [])
         self.n_qubits = n_qubits
 
+    def __add__(self, o):
+        return _Circ(self._gates + o._gates)
+    __iadd__ = __add__
+
 
 def run(idx: Index, rep: Report, tier: str):
     rep.explain("C20, two generator clauses: the quantum Fourier transform gate list folded for short registers and compared, as a matrix, with "
@@ -48,6 +53,7 @@ def run(idx: Index, rep: Report, tier: str):
     check_phase_readout(idx, rep)
     check_iqpe_feedback(idx, rep, tier)
     check_state_preparation(idx, rep, tier)
+    check_qpe_register(idx, rep, tier)
 
 
 def _dft_on(qubits: List[int], n_total: int, inverse: bool, swap: bool) -> np.ndarray:
@@ -297,3 +303,65 @@ def check_state_preparation(idx: Index, rep: Report, tier: str):
 
 def _fmt(v) -> str:
     return "[" + ", ".join(f"{complex(x):.3g}" for x in v) + "]"
+
+
+def check_qpe_register(idx: Index, rep: Report, tier: str):
+    """Standard phase estimation, the register logic: the statements of QPESolver.build that place the register and assemble Fourier transform, controlled
+    powers and inverse transform are folded (get_qft_circuit from its own source; the controlled evolution replaced by its phase kickback on an eigenstate);
+    the register is then propagated numerically for every phase that n bits represent exactly (n = 1..4), read the way QPESolver.simulate reads the histogram
+    (register qubits in increasing index), and converted by the solver's own energy_estimation: the outcome is certain and spells the phase."""
+    import cmath
+    from ..consteval import Folder
+    rule = "K9.qpe-register"
+    cls = idx.cls(f"{QPE}::QPESolver")
+    build = cls.methods["build"]
+    read = cls.methods["energy_estimation"]
+    body = build.node.body
+    start = [i for i, st in enumerate(body) if isinstance(st, ast.Assign) and any("n_state" in norm(t) for t in st.targets)]
+    if not start:
+        raise AnalysisError("QPESolver.build: placement of the register (self.n_state, self.n_ancilla = ...) not found")
+    n_cases = 0
+    for n_bits in (1, 2, 3, 4):
+        class _U(_KickUnitary):
+            def qubit_indices(self):
+                return (0,), ()
+        me = Rec("QPESolver", {"unitary": _U(), "n_qpe_qubits": n_bits})
+        fo = cs.make_folder(idx, QPE, ctors={"Circuit": lambda a, k: _Circ(*a, **k)})
+        fo.env["np.pi"] = math.pi
+        fo.env["self"] = me
+        try:
+            for st in body[start[0]:]:
+                fo.stmt(st)
+        except (Undecidable, Raised) as e:
+            raise AnalysisError(f"QPESolver.build: register assembly not foldable: {type(e).__name__} {e}")
+        circ = me.fields.get("circuit")
+        reg = me.fields.get("qpe_qubit_list")
+        if not isinstance(circ, _Circ) or not isinstance(reg, list) or sorted(reg) != list(range(1, n_bits + 1)):
+            raise AnalysisError(f"QPESolver.build folded to circuit {circ!r}, register {reg!r}")
+        nq = n_bits + 1
+        bad = []
+        for k in range(2 ** n_bits):
+            phi = k / 2 ** n_bits
+            state = np.zeros(2 ** nq, dtype=complex)
+            state[0] = 1
+            for g in circ._gates:
+                if g.fields["name"] == "KICK":
+                    q = g.fields["target"][0]
+                    ph = cmath.exp(2j * math.pi * phi * float(g.fields["parameter"]))
+                    state = np.array([a * (ph if (i >> (nq - 1 - q)) & 1 else 1) for i, a in enumerate(state)])
+                else:
+                    state = numsem.gate_unitary(g, nq).dot(state)
+            probs = np.abs(state) ** 2
+            top = int(np.argmax(probs))
+            if probs[top] < 1 - 1e-9:
+                bad.append(f"phase {phi}: most likely outcome has probability {probs[top]:.3f}")
+                continue
+            bits = "".join(str((top >> (nq - 1 - q)) & 1) for q in range(1, nq))       # histogram with the state qubit removed: register qubits in increasing index
+            got = cs.make_folder(idx, QPE).run_function(read.node, {"self": Rec("QPESolver", {}), "bitstring": bits})
+            if abs(float(got) - phi) > 1e-12:
+                bad.append(f"phase {phi}: certain outcome {bits!r} is read as {float(got)}")
+        n_cases += 2 ** n_bits
+        rep.decide(not bad, rule, build, build.node, text=f"{n_bits}-bit register: all {2 ** n_bits} exactly representable eigenphases",
+                   what="transform, controlled powers 2^i on the i-th register qubit and inverse transform fit together: on an eigenstate the register outcome is certain and, read "
+                        "as the solver reads it, is the eigenphase", reason="; ".join(bad[:3]))
+    rep.floor("QPE eigenphases propagated", n_cases, 30)
